@@ -121,6 +121,23 @@ def gen_cases(tier, seed):
             args += [f["p"], "dst"]
         yield {"kind": "xcp", "fs": "tmpfs" if r.random() < 0.25 else "ext4", "spec": [{"p": "src", "k": "d"}, f] + extra_files, "args": args,
                "driver": driver, "block": bname, "bsv": bsv, "policy": pname, "rules": rules}
+    # blocks of tens of MiB through the fallback paths (kernel copy refused, or refused after a first short chunk)
+    for i in range(10 if tier == "quick" else 80):
+        driver = ["parblock", "parfile"][i % 2]
+        bname, bsv = r.choice([("np", None), ("25MB", 25165824), ("32MB", 32000000)])
+        size = r.choice([(17 << 20) + 3, 25165824, (40 << 20) + 4097, 30000001])
+        f = {"p": "src/f0", "k": "f", "seed": r.randrange(1, 1 << 30), "segs": None, "size": size, "sync": False, "layout": "dense"}
+        kind = r.choice(["cfr-refuse", "cfr-refuse", "short-then-refuse", "cfr-short"])
+        if kind == "cfr-refuse":
+            rules = [{"id": "s", "sys": "copy_file_range", "under": "@ROOT@", "action": "fault", "errno": r.choice([ENOSYS, EXDEV, EPERM])}]
+        elif kind == "short-then-refuse":
+            rules = [{"id": "r", "sys": "copy_file_range", "under": "@ROOT@", "action": "fault", "errno": r.choice([ENOSYS, EXDEV]), "from": 2},
+                     {"id": "s", "sys": "copy_file_range", "under": "@ROOT@", "action": "short", "len": "cap:5000000"}]
+        else:
+            rules = [{"id": "s", "sys": "copy_file_range", "under": "@ROOT@", "action": "short", "len": "half"}]
+        args = ["--driver", driver, "-w", str(r.choice([1, 2, 4])), "--reflink", "never"] + (["--no-progress"] if bsv is None else ["--block-size", str(bsv)]) + ["src/f0", "dst"]
+        yield {"kind": "xcp", "fs": ["tmpfs", "ext4"][(i // 2) % 2], "spec": [{"p": "src", "k": "d"}, f], "args": args,
+               "driver": driver, "block": bname, "bsv": bsv, "policy": kind + ":bigblock", "rules": rules}
     # portable back end through the libfs-only probe
     m = 120 if tier == "quick" else 3000
     for i in range(m):
